@@ -61,22 +61,13 @@ def r2(ctx):
                 continue
             # first non-self argument: key or bounds
             keyop = t["a"][1]
-            origs = trace(b, keyop)
+            from .common import leaves
             names = set()
-            for o in origs:
+            for o in leaves(b, keyop):
                 if o.kind == "upvar":
                     names.add("upvar:%s" % o.data)
                 elif o.kind == "arg":
                     names.add("arg:%s" % o.data[1])
-                elif o.kind == "call":
-                    # bounds constructor: check its namespace argument
-                    ct2 = o.data
-                    nm = ct2["f"].get("name")
-                    sub = set()
-                    for a in ct2["a"]:
-                        for o2 in trace(b, a):
-                            sub.add(("upvar:%s" % o2.data) if o2.kind == "upvar" else (("arg:%s" % o2.data[1]) if o2.kind == "arg" else origin_summary(o2)))
-                    names.add("%s(%s)" % (nm, ",".join(sorted(sub))))
                 else:
                     names.add(origin_summary(o))
             ok = all(("namespace" in x) and ("default" not in x) for x in names) and bool(names)
